@@ -55,8 +55,8 @@ PROFILES = {
     "C14": {"w": _p(measure=10, povm=5, op1=10, opx=8, struct=4, config=0), "clients": (1, 2), "fault_rate": 0.0},
     "C15": {"w": _p(op1=14, opx=10, mk_op=4, struct=4, measure=1, kraus=2), "clients": (1, 2), "fault_rate": 0.0, "reuse": True},
     "C17": {"w": _p(fault=0), "clients": (1, 2), "fault_rate": 0.25},
-    "C18": {"w": _p(measure=12, mk_ce=4, struct=6, trace_out=4, opx=5, op1=5), "clients": (1, 2), "fault_rate": 0.0, "equal_values": True, "min_envs": 2},
-    "C20": {"w": _p(mk_ce=3, opx=9, kraus=4, povm=3, measure=4, trace_out=6, resize=2), "clients": (2, 2), "fault_rate": 0.0, "min_envs": 3},
+    "C18": {"w": _p(measure=12, mk_ce=4, struct=6, trace_out=4, opx=10, op1=5, kraus=3, povm=2, resize=2), "clients": (1, 2), "fault_rate": 0.0, "equal_values": True, "min_envs": 3},
+    "C20": {"w": _p(mk_ce=3, opx=9, kraus=4, povm=3, measure=6, trace_out=6, resize=2, struct=10), "struct_bias": "level", "clients": (2, 2), "fault_rate": 0.0, "min_envs": 3},
     "ALL": {"w": _p(fault=0), "clients": (1, 3), "fault_rate": 0.08},
 }
 
@@ -459,12 +459,17 @@ class Gen:
             opts += ["CSWAP", "ppp"]
         if len(F) >= 2:
             opts += ["BS", "BS", "bs_expr", "crosskerr"]
+        if len(F) >= 3:
+            opts += ["fff_kerr", "fff_kerr"]
         if F and P:
             opts += ["fp_cphase", "pf_cphase"]
         if Cs and P:
             opts += ["cp_ctrl"]
         if self.prof.get("optics"):
             opts = [o for o in opts if o in ("BS", "bs_expr")] * 3 + opts
+        if self.prof.get("equal_values"):
+            # operands that may hold equal values: Fock spaces, the more the better
+            opts = [o for o in opts if o in ("fff_kerr", "BS", "crosskerr", "bs_expr", "fp_cphase", "pf_cphase")] * 2 + opts
         if not opts:
             return None
         # reuse a pooled composite operation on (possibly other) operands of the right kinds
@@ -514,6 +519,9 @@ class Gen:
                 spec = {"t": "X.Expr", "form": "bs", "kinds": ["F", "F"], "theta": th}
             else:
                 spec = {"t": "X.Expr", "form": "crosskerr", "kinds": ["F", "F"], "theta": th}
+        elif o == "fff_kerr":
+            on = rng.sample(F, 3)
+            spec = {"t": "X.Expr", "form": "fff_kerr", "kinds": ["F", "F", "F"], "theta": th}
         elif o == "fp_cphase":
             on = [rng.choice(F), rng.choice(P)]
             spec = {"t": "X.Expr", "form": "fp_cphase", "kinds": ["F", "P"], "theta": th}
